@@ -8,6 +8,12 @@ import (
 	"sync"
 )
 
+type splitCand struct {
+	term string
+	tag  int   // block that defines it
+	both []int // for branch conditions: the two successor blocks (split only if both can reach the obligation)
+}
+
 // Sort is an SMT sort name: "Int", "Bool", "Slice" or a struct datatype name.
 type Sort string
 
@@ -48,6 +54,8 @@ type VC struct {
 	ufuncs   map[string]bool
 	trusted  map[string]bool // trusted-base notes actually used in this VC
 	unfolded map[string]bool
+	splitCands []splitCand // Boolean terms worth case-splitting on (append in-place flags, heavy branch conditions)
+	frontier map[string]string // heap component version -> allocation frontier its allocated cells are well typed for
 }
 
 type Obligation struct {
@@ -67,12 +75,15 @@ type Obligation struct {
 	Expect  string // "" (must be unsat) or "sat" for vacuity canaries
 	Agree   int
 	Tag     int // top-level block of the obligation (-1: whole function)
+	Splits  []string // Boolean terms to case-split on when the monolithic query is not decided quickly
+	Cases   int
+	caseMillis int64
 	Desc    string
 }
 
 func newVC(p *Program) *VC {
 	return &VC{curTag: -1, prog: p, declSet: map[string]bool{}, dtSet: map[string]bool{}, strLits: map[string]string{},
-		structs: map[string]*types.Struct{}, ufuncs: map[string]bool{}, trusted: map[string]bool{}, unfolded: map[string]bool{}}
+		structs: map[string]*types.Struct{}, ufuncs: map[string]bool{}, trusted: map[string]bool{}, unfolded: map[string]bool{}, frontier: map[string]string{}}
 }
 
 func (vc *VC) warn(format string, args ...interface{}) {
@@ -143,6 +154,21 @@ func (vc *VC) oblige(o *Obligation) {
 	o.NAsserts = len(vc.asserts)
 	o.vc = vc
 	o.Tag = vc.curTag
+	// case-split candidates in scope, most recent first
+	var anc map[int]bool
+	if o.Tag >= 0 && vc.reachTo != nil {
+		anc = vc.reachTo[o.Tag]
+	}
+	for i := len(vc.splitCands) - 1; i >= 0 && len(o.Splits) < maxSplits; i-- {
+		c := vc.splitCands[i]
+		if anc != nil && c.tag >= 0 && !anc[c.tag] {
+			continue
+		}
+		if len(c.both) == 2 && anc != nil && !(anc[c.both[0]] && anc[c.both[1]]) {
+			continue // the obligation lies on one side of this branch: the condition is implied by reachability
+		}
+		o.Splits = append(o.Splits, c.term)
+	}
 	vc.obls = append(vc.obls, o)
 }
 
@@ -684,3 +710,20 @@ func wrapInt(t types.Type, term string) string {
 	h := pow2(bits - 1)
 	return "(- (mod (+ " + term + " " + h + ") " + pow2(bits) + ") " + h + ")"
 }
+
+// originID: pairwise distinct constants naming the function that created an error value (ghost).
+func (vc *VC) originID(fn string) string {
+	n := "origin." + smtIdent(fn)
+	if !vc.declSet[n] {
+		vc.declare(n, "Int")
+		for o := range vc.ufuncs {
+			if strings.HasPrefix(o, "origin.") {
+				vc.assertGlobal("(distinct " + n + " " + o + ")")
+			}
+		}
+		vc.ufuncs[n] = true
+	}
+	return n
+}
+
+const maxSplits = 6
